@@ -107,3 +107,30 @@ Section W.
     fst (fst (slot_action ri rc isprobe true now tries expiry)) = APurgeProbe.
   Proof. intro P. unfold slot_action. subst isprobe. reflexivity. Qed.
 End W.
+
+(* ---- loss accounting when a request is abandoned ---- *)
+From RSP Require Import Packet Rewrite Choose.
+Section L.
+  Definition lost_after (mode lost : N) (isprobe : bool) : N :=
+    let inc := if lost <? Consts.MAX_LOSTRQS then lost + 1 else lost in
+    if (mode =? Consts.RSP_STATSRV_ON) || (mode =? Consts.RSP_STATSRV_MINIMAL) then (if isprobe then inc else lost)
+    else if (mode =? Consts.RSP_STATSRV_AUTO) && isprobe then lost
+    else inc.
+
+  Lemma abandon_lost sv isprobe : s_lostrqs (abandon_server sv isprobe) = lost_after (s_statsrv sv) (s_lostrqs sv) isprobe.
+  Proof.
+    unfold abandon_server, lost_after, incrementlostrqs. cbv zeta.
+    destruct ((s_statsrv sv =? Consts.RSP_STATSRV_ON) || (s_statsrv sv =? Consts.RSP_STATSRV_MINIMAL)).
+    - destruct isprobe; [|reflexivity]. destruct (s_lostrqs sv <? Consts.MAX_LOSTRQS); reflexivity.
+    - destruct ((s_statsrv sv =? Consts.RSP_STATSRV_AUTO) && isprobe).
+      + destruct (_ <=? _)%Z; reflexivity.
+      + destruct (s_lostrqs sv <? Consts.MAX_LOSTRQS); reflexivity.
+  Qed.
+
+  (* the table itself is not touched by the accounting *)
+  Lemma abandon_slots sv isprobe : s_slots (abandon_server sv isprobe) = s_slots sv.
+  Proof.
+    unfold abandon_server, incrementlostrqs. cbv zeta.
+    repeat match goal with |- context [if ?c then _ else _] => destruct c end; reflexivity.
+  Qed.
+End L.
